@@ -135,10 +135,40 @@ pub fn string_op<'b>(ctx: &mut Ctx, bump: &'b Bump, s: &mut BString<'b>, t: &mut
             let x = text(c, (c % 6) as usize);
             ctx.both(&format!("String::replace_range({:?}, {:?}) on len {len}", range, x), || s.replace_range(range, &x), || t.replace_range(range, &x));
         }
-        14 | 15 => {
+        14 => {
             let m = 2 + (a % 3) as u32;
             let r = b as u32 % m;
             ctx.both("String::retain", || s.retain(|ch| ch as u32 % m != r), || t.retain(|ch| ch as u32 % m != r));
+        }
+        15 => {
+            // retain whose predicate panics at its k-th call: both strings must be left holding the same text
+            let m = 2 + (a % 3) as u32;
+            let r = b as u32 % m;
+            let k = (c % 6) as usize;
+            let mut n1 = 0usize;
+            let mut n2 = 0usize;
+            ctx.both(
+                &format!("String::retain with a predicate that panics at call {k}"),
+                || {
+                    s.retain(|ch| {
+                        let _u = ledger::enter_user();
+                        n1 += 1;
+                        if n1 - 1 == k {
+                            panic!("predicate panic");
+                        }
+                        ch as u32 % m != r
+                    })
+                },
+                || {
+                    t.retain(|ch| {
+                        n2 += 1;
+                        if n2 - 1 == k {
+                            panic!("predicate panic");
+                        }
+                        ch as u32 % m != r
+                    })
+                },
+            );
         }
         17 => {
             let n = if b >= 252 { usize::MAX - (b as usize - 252) } else { (b % 80) as usize };
@@ -425,10 +455,86 @@ pub fn decoder_sweep(tier: Tier, idx: u32, nworkers: u32) -> SweepOut {
     extra.insert("byte_strings_invalid_utf8".to_string(), json!(n_invalid));
     extra.insert("u16_sequences".to_string(), json!(n_u16));
     out.extra = extra;
+    decoder_random(tier, idx, &mut out);
     if idx == 0 {
         out.samples = vec![json!({"bytes": "e0 9f 80 (overlong 3-byte form): from_utf8 must fail with valid_up_to 0, error_len 1; lossy gives three U+FFFD"}), json!({"u16": "d800 0041: unpaired high surrogate must be rejected"})];
     }
     out
+}
+
+/// Structure-aware random part: valid text with injected truncations, stray continuation bytes,
+/// overlong forms, surrogates, values above U+10FFFF; UTF-16 with lone / swapped surrogates.
+pub fn decoder_random(tier: Tier, idx: u32, out: &mut SweepOut) {
+    use proptest::prelude::*;
+    use proptest::strategy::ValueTree;
+    use proptest::test_runner::{Config, RngSeed, TestRunner};
+    let n = if tier == Tier::Thorough { 60_000 } else { 6_000 };
+    let mut runner = TestRunner::new(Config { rng_seed: RngSeed::Fixed(seed_from_env().wrapping_mul(977) ^ (idx as u64) << 20 ^ 0xdec0de), failure_persistence: None, ..Config::default() });
+    let ch = prop_oneof![4 => proptest::sample::select(CHARS.to_vec()), 2 => any::<char>()];
+    let injection = prop_oneof![
+        Just(vec![0x80u8]), Just(vec![0xBF]), Just(vec![0xC0, 0x80]), Just(vec![0xC1, 0xBF]), Just(vec![0xE0, 0x80, 0x80]), Just(vec![0xE0, 0x9F, 0xBF]),
+        Just(vec![0xED, 0xA0, 0x80]), Just(vec![0xED, 0xBF, 0xBF]), Just(vec![0xF0, 0x80, 0x80, 0x80]), Just(vec![0xF0, 0x8F, 0xBF, 0xBF]), Just(vec![0xF4, 0x90, 0x80, 0x80]),
+        Just(vec![0xF5]), Just(vec![0xFF]), Just(vec![0xE2, 0x82]), Just(vec![0xF0, 0x9F, 0x98]), Just(vec![0xC3]), proptest::collection::vec(any::<u8>(), 1..4),
+    ];
+    let bytes_strat = (proptest::collection::vec(ch.clone(), 0..24), proptest::collection::vec((any::<u16>(), injection), 0..4), any::<u16>()).prop_map(|(chars, inj, cut)| {
+        let mut b: Vec<u8> = chars.iter().collect::<String>().into_bytes();
+        for (pos, bytes) in inj {
+            let at = if b.is_empty() { 0 } else { pos as usize % (b.len() + 1) };
+            for (k, x) in bytes.iter().enumerate() {
+                b.insert(at + k, *x);
+            }
+        }
+        if cut % 3 == 0 && !b.is_empty() {
+            b.truncate(cut as usize % (b.len() + 1));
+        }
+        b
+    });
+    let u16_strat = (proptest::collection::vec(ch, 0..16), proptest::collection::vec((any::<u16>(), prop_oneof![Just(0xD800u16), Just(0xDBFF), Just(0xDC00), Just(0xDFFF), any::<u16>()]), 0..4)).prop_map(|(chars, inj)| {
+        let mut u: Vec<u16> = chars.iter().collect::<String>().encode_utf16().collect();
+        for (pos, x) in inj {
+            let at = if u.is_empty() { 0 } else { pos as usize % (u.len() + 1) };
+            u.insert(at, x);
+        }
+        u
+    });
+    let mut bump = Bump::new();
+    let (mut nb, mut nu, mut ninv) = (0u64, 0u64, 0u64);
+    for i in 0..n {
+        if let Ok(t) = bytes_strat.new_tree(&mut runner) {
+            let b = t.current();
+            nb += 1;
+            if std::str::from_utf8(&b).is_err() {
+                ninv += 1;
+            }
+            if let Some(m) = check_bytes(&bump, &b) {
+                if out.viol.len() < 3 {
+                    out.viol.push((m, json!({"kind": "bytes", "hex": hex(&b)})));
+                }
+            }
+        }
+        if i % 3 == 0 {
+            if let Ok(t) = u16_strat.new_tree(&mut runner) {
+                let u = t.current();
+                nu += 1;
+                if String::from_utf16(&u).is_err() {
+                    ninv += 1;
+                }
+                if let Some(m) = check_u16(&bump, &u) {
+                    if out.viol.len() < 3 {
+                        out.viol.push((m, json!({"kind": "u16", "units": u})));
+                    }
+                }
+            }
+        }
+        if i % 2048 == 0 {
+            bump.reset();
+        }
+    }
+    out.evaluations += nb + nu;
+    out.nontrivial += ninv;
+    out.extra.insert("random_structured_byte_strings".into(), json!(nb));
+    out.extra.insert("random_structured_u16_sequences".into(), json!(nu));
+    out.extra.insert("random_structured_inputs_invalid".into(), json!(ninv));
 }
 
 pub fn replay_decoder_item(item: &Value) -> Vec<String> {
